@@ -315,6 +315,16 @@ theorem build_ok_skeleton (t : Template) (plmn : Bytes) (args : List Val) (pdu :
   rw [List.mem_filterMap]
   exact ⟨c, hc, by rw [hout]⟩
 
+/-- `pdu` is the evaluation of one of the template's skeletons (what a successful `build` returns, and what the two
+    wrappers that modify the built PDU hand to the encoder) -/
+def Shaped (t : Template) (plmn : Bytes) (args : List Val) (pdu : Val) : Prop :=
+  ∃ tm ∈ skeletons t, pdu = eval E (effEnv t plmn args) .nil tm
+
+theorem build_shaped (t : Template) (plmn : Bytes) (args : List Val) (pdu : Val) (h : build E t plmn args = .ok pdu) :
+    Shaped E t plmn args pdu := by
+  obtain ⟨tm, htm, _, hp⟩ := build_ok_skeleton E t plmn args pdu h
+  exact ⟨tm, htm, hp⟩
+
 /-- every template of the builder table together with the two skeletons the wrapper surgery produces -/
 def allTable : List Template := table ++ [tGetNGSetupRequest, tGetPathSwitchRequest]
 
